@@ -63,6 +63,32 @@ def call_name(tree):
     return None
 
 
+def _bool_locals(L, e):
+    """path-sensitive constants of boolean locals: {(var, value)} after event e"""
+    k = e["e"]
+    if k == "decl":
+        v, rhs = e.get("var"), e.get("init")
+    elif k == "assign" and isinstance(e.get("lhs"), list) and e["lhs"][:1] == ["var"]:
+        v, rhs = e["lhs"][1], (e.get("rhs") if e.get("op") == "=" else None)
+    elif k == "incdec" and isinstance(e.get("x"), list) and e["x"][:1] == ["var"]:
+        v, rhs = e["x"][1], None
+    else:
+        return L
+    val = None
+    t, pol = cond_shape(rhs) if isinstance(rhs, list) else (None, True)
+    if isinstance(t, list) and t[:1] == ["bool"]:
+        val = bool(t[1]) == pol
+    elif isinstance(t, list) and t[:1] == ["var"]:
+        src = dict(L).get(t[1])
+        if src is not None:
+            val = (src == pol)
+    d = dict(L)
+    d.pop(v, None)
+    if val is not None:
+        d[v] = val
+    return frozenset(d.items())
+
+
 class Explorer:
     def __init__(self, tu, classify, edge=None, delta=None, descend_std=True, max_depth=40):
         self.tu = tu
@@ -165,18 +191,19 @@ class Explorer:
         exits = {}
         terms = {}
         seen = {}
-        work = [(fn.entry, q0, None)]
+        work = [(fn.entry, q0, frozenset(), None)]
         blocks = fn.blocks
         while work:
-            bid, q, tr = work.pop()
-            if (bid, q) in seen:
+            bid, q, L, tr = work.pop()
+            if (bid, q, L) in seen:
                 continue
-            seen[(bid, q)] = True
+            seen[(bid, q, L)] = True
             self.stats["block_states"] += 1
             b = blocks[bid]
             # states: set of (q, trace) flowing through the block's events
             cur = [(q, tr)]
             for e in b["ev"]:
+                L = _bool_locals(L, e)
                 c = self.classify(fn, e, env)
                 if c is not None:
                     if c[0] == "sym":
@@ -227,11 +254,19 @@ class Explorer:
             term = b.get("term")
             name = None
             pol = True
+            only = None
             if term and term.get("cond") is not None and len(succ) == 2:
                 ct, pol = cond_shape(term["cond"])
                 name = self.edge(fn, ct)
+                # a branch on a local that holds a known boolean constant on this path has one feasible edge
+                if isinstance(ct, list) and ct[:1] == ["var"]:
+                    known = dict(L).get(ct[1])
+                    if known is not None:
+                        only = 0 if (known == pol) else 1
             for i, s in enumerate(succ):
                 if s is None:
+                    continue
+                if only is not None and i != only:
                     continue
                 for qq, t in cur:
                     if name is not None and len(succ) == 2:
@@ -240,9 +275,9 @@ class Explorer:
                         q2 = self._apply(qq, sym)
                         if q2 == "DEAD":
                             continue
-                        work.append((s, q2, Trace(t, (sym, term.get("loc", "")))))
+                        work.append((s, q2, L, Trace(t, (sym, term.get("loc", "")))))
                     else:
-                        work.append((s, qq, t))
+                        work.append((s, qq, L, t))
         return exits, terms
 
     @staticmethod
